@@ -618,8 +618,8 @@ class STableSel(Model):
             self._M = self.mask.materialize(ctx, 'rowsel')
             ctx.note_cnt(self._M)
             ctx.hint(self.table.n)
-            # a positive count has a first selected row; count 0 means no selected row (lemma prop.C02.nosig and its converse by
-            # the defining equations of cnt)
+            # a positive count has a *first* selected row (least-number principle, assumed); count 0 means no selected row
+            # (instances of the proved lemma cnt_mono with the defining equations of cnt)
             M, n = self._M, self.table.n
             f = fresh_int('firstsel')
             ctx.assume(z3.Implies(cnt(M, n) > 0, z3.And(f >= 0, f < n, M[f], cnt(M, f) == 0)))
@@ -628,7 +628,7 @@ class STableSel(Model):
             ctx.assume(cnt(M, n) >= 0)
             ctx.hint(f)
             self.first = f
-            ctx.used_lemmas.add('prop.C02.nosig')
+            ctx.used_lemmas.add('cnt_mono')
         return self._M
 
     def sym_len(self, ctx):
